@@ -65,6 +65,58 @@ func showList(xs []int) string {
 	return "[" + strings.Join(ss, " ") + "]"
 }
 
+const digestP = 2147483647
+
+// showOrDigest prints short lists in full and long ones (the size cases) as length + order-sensitive hash.
+func showOrDigest(xs []int) string {
+	if len(xs) <= 64 {
+		return showList(xs)
+	}
+	h := uint64(7)
+	for _, x := range xs {
+		h = (h*1000003 + uint64(x)%digestP) % digestP
+	}
+
+	return fmt.Sprintf("#%d:%d", len(xs), h)
+}
+
+// showOrSums prints a set within the model's printed universe in full, any other as size + order-independent sums.
+func showOrSums(xs []int) string {
+	small := true
+	var s1, s2 uint64
+	for _, x := range xs {
+		if x < 0 || x >= 16 {
+			small = false
+		}
+		m := uint64(x) % digestP
+		s1 = (s1 + m) % digestP
+		s2 = (s2 + m*m) % digestP
+	}
+	if small {
+		return showList(xs)
+	}
+
+	return fmt.Sprintf("#%d:%d:%d", len(xs), s1, s2)
+}
+
+func clip(s string) string {
+	if len(s) > 300 {
+		return s[:200] + " … " + s[len(s)-80:]
+	}
+
+	return s
+}
+
+func sortedKeys(m map[int]bool) []int {
+	out := make([]int, 0, len(m))
+	for k := range m {
+		out = append(out, k)
+	}
+	sort.Ints(out)
+
+	return out
+}
+
 func sameSet(a, b []int) bool {
 	a, b = sortedCopy(a), sortedCopy(b)
 	if len(a) != len(b) {
@@ -91,7 +143,67 @@ type world interface {
 
 // region set pool /////////////////////////////////////////////////////////////////////////////////////////////////
 
-type pool struct{ sets map[int]reactive.Set[int] }
+// pool is the set pool of a DerivedSet / SubtractReactive case.  The model's elements are 0..15; the elements the real
+// sets hold are enc(x) = x*scale + off (an injective renaming: per-case, so that element values of every magnitude and
+// sign occur).
+type pool struct {
+	sets       map[int]reactive.Set[int]
+	scale, off int
+}
+
+func (p *pool) configure(tok string) bool {
+	p.scale, p.off = 1, 0
+	if tok == "" {
+		return true
+	}
+	parts := strings.Split(strings.TrimPrefix(tok, "x"), "+")
+	sc, err := strconv.Atoi(parts[0])
+	if err != nil || sc == 0 || !strings.HasPrefix(tok, "x") {
+		return false
+	}
+	p.scale = sc
+	if len(parts) > 1 {
+		if p.off, err = strconv.Atoi(parts[1]); err != nil {
+			return false
+		}
+	}
+
+	return true
+}
+
+func (p *pool) enc(x int) int {
+	if p.scale == 0 {
+		p.scale = 1
+	}
+
+	return x*p.scale + p.off
+}
+
+func (p *pool) encs(xs []int) []int {
+	out := make([]int, len(xs))
+	for i, x := range xs {
+		out[i] = p.enc(x)
+	}
+
+	return out
+}
+
+// decs maps real elements back to model elements (elements that are no images are kept recognisable: negative).
+func (p *pool) decs(xs []int) []int {
+	if p.scale == 0 {
+		p.scale = 1
+	}
+	out := make([]int, len(xs))
+	for i, x := range xs {
+		if (x-p.off)%p.scale != 0 {
+			out[i] = -1 - i
+		} else {
+			out[i] = (x - p.off) / p.scale
+		}
+	}
+
+	return out
+}
 
 func (p *pool) get(i int) reactive.Set[int] {
 	if p.sets == nil {
@@ -110,13 +222,13 @@ func (p *pool) get(i int) reactive.Set[int] {
 func (p *pool) write(f []string) bool {
 	switch f[0] {
 	case "add":
-		p.get(atoi(f[1])).Add(atoi(f[2]))
+		p.get(atoi(f[1])).Add(p.enc(atoi(f[2])))
 	case "del":
-		p.get(atoi(f[1])).Delete(atoi(f[2]))
+		p.get(atoi(f[1])).Delete(p.enc(atoi(f[2])))
 	case "apply":
-		p.get(atoi(f[1])).Apply(ds.NewSetMutations(parseInts(f[2])...).WithDeletedElements(ds.NewSet(parseInts(f[3])...)))
+		p.get(atoi(f[1])).Apply(ds.NewSetMutations(p.encs(parseInts(f[2]))...).WithDeletedElements(ds.NewSet(p.encs(parseInts(f[3]))...)))
 	case "replace":
-		p.get(atoi(f[1])).Replace(ds.NewSet(parseInts(f[2])...))
+		p.get(atoi(f[1])).Replace(ds.NewSet(p.encs(parseInts(f[2]))...))
 	case "replaceset": // the argument is another set of the pool, the set itself, or (trailing "ro") its read-only view
 		if len(f) > 3 && f[3] == "ro" {
 			p.get(atoi(f[1])).Replace(p.get(atoi(f[2])).ReadOnly())
@@ -132,7 +244,7 @@ func (p *pool) write(f []string) bool {
 		if f[1] == f[2] {
 			return false // a writer of the replaced set itself waits for Replace to finish: not expressible by the view
 		}
-		p.get(atoi(f[1])).Replace(&mutatedAfterRead{ReadableSet: arg, after: func() { arg.Add(atoi(f[3])) }})
+		p.get(atoi(f[1])).Replace(&mutatedAfterRead{ReadableSet: arg, after: func() { arg.Add(p.enc(atoi(f[3]))) }})
 	default:
 		return false
 	}
@@ -199,6 +311,10 @@ func (w *dsWorld) expected() []int {
 func (w *dsWorld) exec(r failer, f []string) string {
 	switch f[0] {
 	case "new":
+		if !w.pool.configure(strings.Join(f[1:], "")) {
+			return "bad-op"
+		}
+
 		return "ok"
 	case "inherit":
 		srcs := parseInts(f[1])
@@ -230,9 +346,9 @@ func (w *dsWorld) exec(r failer, f []string) string {
 			return "bad-op"
 		}
 	}
-	got := sortedCopy(w.derived.ToSlice())
-	if exp := w.expected(); !sameSet(exp, got) {
-		r.Fail("derived-set-union", fmt.Sprintf("after %q the DerivedSet holds %v but the union of its current sources is %v", strings.Join(f, " "), got, exp),
+	got := sortedCopy(w.pool.decs(w.derived.ToSlice()))
+	if exp := sortedCopy(w.pool.decs(w.expected())); !sameSet(exp, got) {
+		r.Fail("derived-set-union", fmt.Sprintf("after %q the DerivedSet holds %v but the union of its current sources is %v (elements x -> x*%d+%d)", strings.Join(f, " "), got, exp, w.pool.scale, w.pool.off),
 			map[string]string{"construct": "DerivedSet", "trigger": f[0], "mode": "sequential"})
 	}
 
@@ -271,6 +387,10 @@ func (w *srWorld) expected() []int {
 func (w *srWorld) exec(r failer, f []string) string {
 	switch f[0] {
 	case "new":
+		if !w.pool.configure(strings.Join(f[1:], "")) {
+			return "bad-op"
+		}
+
 		return "ok"
 	case "create":
 		if w.res == nil {
@@ -289,9 +409,9 @@ func (w *srWorld) exec(r failer, f []string) string {
 	if w.res == nil {
 		return "-"
 	}
-	got := sortedCopy(w.res.ToSlice())
-	if exp := w.expected(); !sameSet(exp, got) {
-		r.Fail("subtract-reactive", fmt.Sprintf("after %q SubtractReactive holds %v but source minus others is %v", strings.Join(f, " "), got, exp),
+	got := sortedCopy(w.pool.decs(w.res.ToSlice()))
+	if exp := sortedCopy(w.pool.decs(w.expected())); !sameSet(exp, got) {
+		r.Fail("subtract-reactive", fmt.Sprintf("after %q SubtractReactive holds %v but source minus others is %v (elements x -> x*%d+%d)", strings.Join(f, " "), got, exp, w.pool.scale, w.pool.off),
 			map[string]string{"construct": "SubtractReactive", "trigger": f[0], "mode": "sequential"})
 	}
 
@@ -367,6 +487,14 @@ func (w *ctWorld) exec(r failer, f []string) string {
 		w.monLive = append(w.monLive, true)
 		w.unmon = append(w.unmon, w.counter.Monitor(w.v(i)))
 		ans = fmt.Sprintf("%d %d", len(w.monVar)-1, w.counter.Get())
+	case "monmany": // k more monitors of the same input
+		i, k := atoi(f[1]), atoi(f[2])
+		for ; k > 0; k-- {
+			w.monVar = append(w.monVar, i)
+			w.monLive = append(w.monLive, true)
+			w.unmon = append(w.unmon, w.counter.Monitor(w.v(i)))
+		}
+		ans = fmt.Sprintf("%d %d", len(w.monVar), w.counter.Get())
 	case "unmon":
 		j := atoi(f[1])
 		if j < len(w.unmon) {
@@ -500,11 +628,11 @@ func (w *ssWorld[E]) exec(r failer, f []string) string {
 		return "bad-op"
 	}
 	if bad := w.check(); bad != "" {
-		r.Fail("sorted-set", "after \""+strings.Join(f, " ")+"\": "+bad,
+		r.Fail("sorted-set", "after \""+clip(strings.Join(f, " "))+"\": "+clip(bad),
 			map[string]string{"construct": "SortedSet", "trigger": f[0], "mode": "sequential"})
 	}
 
-	return fmt.Sprintf("desc=%s h=%d l=%d", showList(toInts(w.set.Descending())), int(w.set.HeaviestElement().Get()), int(w.set.LightestElement().Get()))
+	return fmt.Sprintf("desc=%s h=%d l=%d", showOrDigest(toInts(w.set.Descending())), int(w.set.HeaviestElement().Get()), int(w.set.LightestElement().Get()))
 }
 
 // endregion
@@ -551,12 +679,16 @@ func (w *wgWorld) exec(r failer, f []string) string {
 	if w.wg == nil {
 		return "bad-op"
 	}
+	if got, exp := sortedCopy(w.wg.PendingElements().ToSlice()), sortedKeys(w.pending); !sameSet(got, exp) {
+		r.Fail("wait-group", fmt.Sprintf("after %q PendingElements() has %d elements but %d elements were added and not marked done", clip(strings.Join(f, " ")), len(got), len(exp)),
+			map[string]string{"construct": "WaitGroup", "trigger": f[0] + "-pending", "mode": "sequential"})
+	}
 	if got := w.wg.WasTriggered(); got != w.expect {
-		r.Fail("wait-group", fmt.Sprintf("after %q WasTriggered()=%v but 'a Done removed the last pending element'=%v", strings.Join(f, " "), got, w.expect),
+		r.Fail("wait-group", fmt.Sprintf("after %q WasTriggered()=%v but 'a Done removed the last pending element'=%v", clip(strings.Join(f, " ")), got, w.expect),
 			map[string]string{"construct": "WaitGroup", "trigger": f[0], "mode": "sequential"})
 	}
 
-	return fmt.Sprintf("pending=%s trig=%v", showList(sortedCopy(w.wg.PendingElements().ToSlice())), w.wg.WasTriggered())
+	return fmt.Sprintf("pending=%s trig=%v", showOrSums(sortedCopy(w.wg.PendingElements().ToSlice())), w.wg.WasTriggered())
 }
 
 // wgRace replays the schedule of the Lean witness on the real code through the verif hook: Add(x) of an already
